@@ -193,15 +193,18 @@ fn build(case: &Case) -> (Built, Inheritance) {
 		};
 		let d_b = desc_of(&bparams, &bret);
 		let n_b = if p.same_name { n_s.clone() } else { format!("bridge{k}") };
-		if n_b == n_s && d_b == d_s {
-			continue; // would be the same method
-		}
 		// the delegate lives in this class, or (body 4) in the super class
 		let owner_idx = match &shared {
 			Some(m) => m.1,
 			None if p.body == 4 => h[p.class].1.as_ref().and_then(|s| MAIN.iter().position(|m| m == s)).unwrap_or(p.class),
 			None => p.class,
 		};
+		// same name and descriptor: the same method - unless the delegate lives in another class (javac's visibility bridge:
+		// `Pub.run()` is synthetic and does `invokespecial Base.run()`)
+		let same_signature = n_b == n_s && d_b == d_s;
+		if same_signature && owner_idx == p.class {
+			continue;
+		}
 		let owner = MAIN[owner_idx].to_string();
 		if (shared.is_none() && !used.insert((owner_idx, n_s.clone(), d_s.clone()))) || !used.insert((p.class, n_b.clone(), d_b.clone())) {
 			continue;
@@ -215,7 +218,7 @@ fn build(case: &Case) -> (Built, Inheritance) {
 			models[owner_idx].methods.push(CMember { access: 1, name: n_s.clone(), desc: d_s.clone(), attrs: vec![Attr::Code(Code { max_stack: 1, max_locals: 8, insns: vec![ret_insn.clone()], exceptions: vec![], attrs: vec![] })] });
 			made.push((p.class, owner_idx, n_s.clone(), params.clone(), ret.clone()));
 		}
-		let call = |name: &str, desc: &str, owner: &str| Insn::Invoke { op: 182, owner: owner.to_string(), name: name.to_string(), desc: desc.to_string(), itf: false };
+		let call = |name: &str, desc: &str, owner: &str| Insn::Invoke { op: if same_signature { 183 } else { 182 }, owner: owner.to_string(), name: name.to_string(), desc: desc.to_string(), itf: false };
 		let mut insns = vec![Insn::Local { op: 25, index: 0 }];
 		let mut refs: BTreeSet<MRef> = BTreeSet::new();
 		let deleg = MRef { class: owner.clone(), name: n_s.clone(), desc: d_s.clone() };
@@ -391,6 +394,13 @@ fn check(case: &Case, obs: &mut Obs) -> PropResult {
 			let decl = cal.map_class(&owners[(d.next() as usize) % owners.len()]);
 			if let Some(c) = named.classes.get_mut(&decl) {
 				c.methods.entry(MemberKey::new(&bi.name, &bi.desc)).or_insert(MMethod { names: vec![Some(bi.name.clone()), Some(format!("namedBridge{k}"))], ..MMethod::default() });
+			}
+			// the bridge's own class has an entry for it as well, but one without a name (it only carries a comment): the name
+			// still comes from the ancestor
+			if decl != cal.map_class(&b.class) && d.pct(35) {
+				if let Some(c) = named.classes.get_mut(&cal.map_class(&b.class)) {
+					c.methods.entry(MemberKey::new(&bi.name, &bi.desc)).or_insert(MMethod { names: vec![Some(bi.name.clone()), None], doc: Some("own entry without a name".into()), ..MMethod::default() });
+				}
 			}
 		}
 		if d.pct(35) {
